@@ -45,6 +45,7 @@ type FuncContract struct {
 	Modifies []Expr
 	ModText  []string
 	ModAll   bool // "modifies everything"
+	ModHeap  bool // "modifies heap": every program-visible location, but only the listed ghost state
 	HasMod   bool
 	Wrapping bool
 	Pure     bool // result is a function of the arguments (and heap)
@@ -537,6 +538,10 @@ func parseContractFile(path, pkgPath string, requirePrefix bool) (*ContractFile,
 				}
 				if part == "everything" {
 					curF.ModAll = true
+					continue
+				}
+				if part == "heap" {
+					curF.ModHeap = true
 					continue
 				}
 				e, err := parseExpr(part)
